@@ -614,12 +614,112 @@ func (x *Exec) oblige(st *State, kind, detail string, goal string, tags []string
 	if goal == "true" {
 		ob.Result, ob.Trivial, ob.Solver = "unsat", true, "syntactic"
 	} else {
-		body := st.scriptText() + "(assert (not " + goal + "))\n(check-sat)\n"
+		body := st.scriptText() + x.negatedGoal(goal) + "(check-sat)\n"
 		ob.Query = body
 		ob.CETerms = x.ceTerms(st)
 	}
 	x.obls = append(x.obls, ob)
 	st.assume(goal)
+}
+
+// negatedGoal asserts the negation of the goal. A goal `forall xs {triggers} :: body` is
+// skolemized here (the bound names are unique, so they are declared as constants) and every user
+// trigger term becomes a ground "seed" term, so that quantified hypotheses with the same trigger
+// are instantiated at the skolem constants (E-matching finds no ground term inside the nested
+// quantifiers of the negated body otherwise). Equivalent to (assert (not goal)).
+func (x *Exec) negatedGoal(goal string) string {
+	plain := "(assert (not " + goal + "))\n"
+	if !strings.HasPrefix(goal, "(forall (") {
+		return plain
+	}
+	parts := sexprSplit(goal[1 : len(goal)-1])
+	if len(parts) != 3 {
+		return plain
+	}
+	var sb strings.Builder
+	for _, b := range sexprSplit(parts[1][1 : len(parts[1])-1]) {
+		bs := sexprSplit(b[1 : len(b)-1])
+		if len(bs) != 2 {
+			return plain
+		}
+		fmt.Fprintf(&sb, "(declare-const %s %s)\n", bs[0], bs[1])
+	}
+	body := parts[2]
+	if strings.HasPrefix(body, "(! ") {
+		bp := sexprSplit(body[1 : len(body)-1])
+		if len(bp) < 2 {
+			return plain
+		}
+		body = bp[1]
+		seedNo := 0
+		for i := 2; i+1 < len(bp); i += 2 {
+			if bp[i] != ":pattern" {
+				continue
+			}
+			for _, t := range sexprSplit(bp[i+1][1 : len(bp[i+1])-1]) {
+				if srt, ok := x.ctx.patSortOf(t); ok {
+					seedNo++
+					fn := fmt.Sprintf("seed!%d", seedNo)
+					fmt.Fprintf(&sb, "(declare-fun %s (%s) Bool)\n(assert (%s %s))\n", fn, srt, fn, t)
+				}
+			}
+		}
+	}
+	fmt.Fprintf(&sb, "(assert (not %s))\n", body)
+	return sb.String()
+}
+
+// sexprSplit splits the text of a list body into its top-level elements.
+func sexprSplit(s string) []string {
+	var out []string
+	i := 0
+	for i < len(s) {
+		for i < len(s) && (s[i] == ' ' || s[i] == '\n' || s[i] == '\t') {
+			i++
+		}
+		if i >= len(s) {
+			break
+		}
+		start := i
+		switch s[i] {
+		case '(':
+			d := 0
+			for i < len(s) {
+				if s[i] == '|' {
+					i++
+					for i < len(s) && s[i] != '|' {
+						i++
+					}
+				} else if s[i] == '"' {
+					i++
+					for i < len(s) && s[i] != '"' {
+						i++
+					}
+				} else if s[i] == '(' {
+					d++
+				} else if s[i] == ')' {
+					d--
+					if d == 0 {
+						i++
+						break
+					}
+				}
+				i++
+			}
+		case '|':
+			i++
+			for i < len(s) && s[i] != '|' {
+				i++
+			}
+			i++
+		default:
+			for i < len(s) && s[i] != ' ' && s[i] != '(' && s[i] != ')' && s[i] != '\n' {
+				i++
+			}
+		}
+		out = append(out, s[start:i])
+	}
+	return out
 }
 
 // ceTerms: terms whose model values describe a counterexample: entry parameters and the named
